@@ -189,7 +189,20 @@ def main(inp, outp):
                     continue
                 res["evaluations"] += 1
                 try:
-                    got = [float(x) for x in sv.copy(form=dst)]
+                    # the doors to a form change, in turn: copy(form=name), copy(form=Form object), the in-place setter on a copy,
+                    # copy(same=<state in that form>)
+                    door = (res["evaluations"] + len(src)) % 4
+                    if door == 0:
+                        got = [float(x) for x in sv.copy(form=dst)]
+                    elif door == 1:
+                        from beyond.orbits.forms import get_form
+                        got = [float(x) for x in sv.copy(form=get_form(dst))]
+                    elif door == 2:
+                        tmp = sv.copy()
+                        tmp.form = dst
+                        got = [float(x) for x in tmp]
+                    else:
+                        got = [float(x) for x in sv.copy(same=StateVector(exp[dst], DATE, dst, FRAME))]
                 except Exception as e:
                     clause("conversion between two defined forms succeeds", False, f"forms/raises[{src}->{dst}]", f"{src}->{dst}: {type(e).__name__}: {e}", data)
                     continue
